@@ -36,6 +36,9 @@ class Wire:
         self.peer_addr_fails = False
         self.shut_rd = False
         self.shut_wr = False
+        self.options = []               # socket options set by the server: (name, value description)
+        self.read_timeout = False       # a read timeout is in force: a pause of the client may end a read with WouldBlock
+        self.pause_budget = 1
 
     def consumed(self):
         return self.pos
@@ -82,18 +85,32 @@ class SockObj(Opaque):
             return Ok(bv(0))
         cap = z3.simplify(z3.If(z3.ULT(blen, rem), blen, rem))
         cc = conc(cap)
+        if w.read_timeout and w.short_reads == 'choose' and w.pause_budget > 0 and len(w.log) and ctx.choose(2, 'pause') == 1:
+            # the client pauses (between two segments) for longer than the read timeout the server has set on this socket
+            w.pause_budget -= 1
+            w.log.append(('pause',))
+            return Err(io_error('WouldBlock'))
         if w.short_reads == 'choose' and cc is not None and cc > 1 and w.short_budget > 0:
             # enumerated segmentation: this read delivers 1, 3 or all available bytes (each a separate path)
             opts = [x for x in (1, 3) if x < cc]
-            # a segment that ends between the CR and the LF of the next line terminator (code that looks at what is buffered
-            # sees such a boundary; byte-wise readers do not)
+            # segment boundaries that buffered code can tell apart from the others: between the CR and the LF of the next line
+            # terminator, and right after the blank line that ends a head (a client that sends head and body separately)
             p0 = conc(w.pos)
             if p0 is not None:
-                for i in range(min(cc - 1, 160)):
-                    if conc(z3.simplify(z3.Select(w.buf.arr, bv(p0 + i)))) == 13 and \
-                            conc(z3.simplify(z3.Select(w.buf.arr, bv(p0 + i + 1)))) == 10:
+                at = lambda j: conc(z3.simplify(z3.Select(w.buf.arr, bv(p0 + j))))
+                lim = min(cc - 1, 200)
+                for i in range(lim):
+                    if at(i) == 13 and at(i + 1) == 10:
                         if i + 1 not in opts and i + 1 < cc:
                             opts.append(i + 1)
+                        break
+                for i in range(max(lim - 2, 0)):
+                    if at(i) == 13 and at(i + 1) == 10 and at(i + 2) == 13 and at(i + 3) == 10:
+                        if i + 4 < cc:
+                            if 3 in opts:
+                                opts.remove(3)
+                            if i + 4 not in opts:
+                                opts.append(i + 4)
                         break
             opts.append(cc)
             n = bv(opts[ctx.choose(len(opts), 'seg')])
@@ -163,6 +180,24 @@ def _(it, a, info):
     return Ok(Opaque('SocketAddr', token=bv(0x7f000001)))
 
 
+@model('TcpStream::set_read_timeout', 'UnixStream::set_read_timeout', 'TcpStream::set_write_timeout', 'UnixStream::set_write_timeout',
+       'TcpStream::set_nonblocking', 'UnixStream::set_nonblocking', 'TcpStream::set_nodelay', 'TcpStream::set_ttl')
+def _(it, a, info):
+    s = a[0]
+    n = 0
+    while isinstance(s, Ref) and n < 8:
+        s = it.read(s.root, s.path)
+        n += 1
+    v = a[1]
+    desc = 'some' if (isinstance(v, Enum) and v.variant == 'Some') else ('none' if isinstance(v, Enum) else str(v))
+    if isinstance(s, SockObj):
+        s.wire.options.append((info['method'], desc))
+    hook = it.ctx.data.get('sockopt_log')
+    if hook is not None:
+        hook.append((info['method'], desc))
+    return Ok(unit())
+
+
 @model('TcpStream::shutdown', 'UnixStream::shutdown')
 def _(it, a, info):
     s = deref(it, a[0])
@@ -201,6 +236,16 @@ class BufReaderObj(Opaque):
         return self.ibuf is not None and self.ipos < self.ilen
 
     def read(self, it, buf):
+        if it.ctx.data.get('bufreader_mode') == 'buffered' and not self.pending():
+            # std's BufReader::read: an empty buffer is refilled by ONE read of the inner reader of up to `cap` bytes, unless
+            # the caller's buffer is at least that large (then the read goes straight through)
+            bl = conc(buf.len)
+            if bl is None or bl < (self.cap or 8192):
+                r = self.fill_buf(it)
+                if r.variant == 'Err':
+                    return r
+                if not self.pending():
+                    return Ok(bv(0))
         if self.pending():
             rem = self.ilen - self.ipos
             bl = conc(buf.len)
@@ -236,6 +281,9 @@ class BufReaderObj(Opaque):
         self.ipos = min(self.ilen, self.ipos + cn)
 
     def buffer(self, it):
+        if it.ctx.data.get('bufreader_mode') != 'buffered' and self.ibuf is None:
+            # in the pipe abstraction nothing is ever read ahead: what buffer() shows would not be what std shows
+            raise Unsupported('BufReader::buffer(): looking into the read-ahead buffer needs the buffered BufReader model (C13 uses it)')
         if not self.pending():
             return whole(Buf.from_bytes(b''))
         return Slice(self.ibuf, bv(self.ipos), bv(self.ilen - self.ipos))
